@@ -421,3 +421,40 @@ func errResultE(e retEdge) (ssa.Value, bool) {
 	}
 	return last, true
 }
+
+// pathRet is the return a path ends in, with the returned values resolved along the path
+// (a result variable assigned on several branches is a phi at the return; on one path it has
+// one value).
+type pathRet struct {
+	Results []ssa.Value
+	Instr   *ssa.Return
+}
+
+func (r *pathRet) Pos() token.Pos         { return r.Instr.Pos() }
+func (r *pathRet) Block() *ssa.BasicBlock { return r.Instr.Block() }
+func (r *pathRet) Parent() *ssa.Function  { return r.Instr.Parent() }
+
+// Ret returns the resolved return of the path, or nil when the path does not end in a return.
+func (p *Path) Ret() *pathRet {
+	ret := p.Return()
+	if ret == nil {
+		return nil
+	}
+	out := &pathRet{Instr: ret}
+	for _, v := range returnedValues(ret) {
+		out.Results = append(out.Results, p.Resolve(v))
+	}
+	return out
+}
+
+// errResultP: the error result (last result of error type) of a resolved return.
+func errResultP(r *pathRet) (ssa.Value, bool) {
+	if r == nil || len(r.Results) == 0 {
+		return nil, false
+	}
+	n := len(r.Results)
+	if !isErrorType(r.Instr.Parent().Signature.Results().At(n - 1).Type()) {
+		return nil, false
+	}
+	return r.Results[n-1], true
+}
